@@ -237,18 +237,15 @@ impl Dispatcher {
     pub async fn join(self) -> io::Result<()> {
         drop(self.sender);
         let (tx, rx) = oneshot::channel::<Vec<_>>();
-        if let Err(f) = self.pool.dispatch({
-            move || {
-                let results = self
-                    .threads
-                    .into_iter()
-                    .map(|thread| thread.join())
-                    .collect();
-                tx.send(results).ok();
-            }
-        }) {
-            std::thread::spawn(f.0);
-        }
+        // The joining closure blocks until every worker has exited, and a worker may
+        // still need the blocking pool to get there. It must not occupy a slot of that
+        // pool itself: with a thread limit of 1 the worker would wait for the slot and
+        // the slot for the worker, forever.
+        let threads = self.threads;
+        std::thread::spawn(move || {
+            let results = threads.into_iter().map(|thread| thread.join()).collect();
+            tx.send(results).ok();
+        });
         let results = rx
             .await
             .map_err(|_| io::Error::other("the join task cancelled unexpectedly"))?;
